@@ -36,7 +36,7 @@ STATE_MEASURE = "(files configured, dynamic_frames, fault kind, ordered body pai
 PROBES = [
     "vector_checked", "pair_both_directions", "create_frames_reentered", "dynamic_lookup_created_frames", "unknown_frame_refused", "mutated_then_queried_again",
     "registration_interleaved", "config_flip_after_first_use", "restart", "kernel_fault_fired", "without_pck", "date_last_minute_of_day", "analytic_history_independent",
-    "analytic_within_series_accuracy", "builtin_frame_to_body", "analytic_other_body_on_neighbouring_days", "reversed_propagator_checked", "non_cartesian_state_changed_body", "frame_attached_to_a_jpl_orbit", "kernel_frame_served_after_analytic_namesake",
+    "analytic_within_series_accuracy", "builtin_frame_to_body", "analytic_other_body_on_neighbouring_days", "reversed_propagator_checked", "non_cartesian_state_changed_body", "frame_attached_to_a_jpl_orbit", "kernel_frame_served_after_analytic_namesake", "pickled_body_state_converted",
 ]
 REAL_VS_STUB = "real: beyond.env.jpl (Bsp/Pck singletons, JplPropagator, create_frames, get_orbit, get_frame), frames/centres routing, Date, jplephem reading the real DE403 2000-2020 kernel and the real PCK text files (faulted copies in a scratch directory); stub: none; model: own jplephem handle on the intact kernel chained segment by segment, own TDB (sim/models/timescales.py)"
 ASSUMPTIONS = [
@@ -103,6 +103,9 @@ def gen_date(rng):
         if rng.random() < 0.6:
             return [SPAN_MJD[0] - 1, 86400.0 - rng.choice([1.0, 5.0, 20.0, 30.0]), rng.choice(["TAI", "UTC", "UTC"])]  # = 1..31 s after the start, in TDB
         return [SPAN_MJD[1] - 1, 86400.0 - rng.choice([120.0, 600.0]), rng.choice(["TAI", "UTC", "TT", "TDB"])]
+    if rng.random() < 0.06:
+        # exactly 00:00:00 UTC on a day a leap second takes effect: the new TAI-UTC applies from that reading on
+        return [rng.choice([53736, 54832, 56109, 57204, 57754]), 0.0, "UTC"]
     day = rng.randint(51560, 58800)  # 2000-01-15 .. 2019-11-13, inside the kernel
     r = rng.random()
     if r < 0.35:
@@ -128,7 +131,7 @@ def gen_plan(rng, tier, i):
         kn["fault"] = {"kind": rng.choice(["bsp_missing", "bsp_empty", "bsp_truncated", "pck_missing", "pck_damaged"]), "at": rng.random()}
     ops = []
     for _ in range(rng.randint(5, 12) if tier != "thorough" else rng.randint(8, 24)):
-        k = rng.choice(["convert"] * 6 + ["get_orbit", "get_orbit", "mutate_again", "create", "create", "dynamic", "register", "flip", "restart", "analytic", "analytic", "reverse", "kepler_probe", "kepler_probe", "orbit_as_frame", "analytic_frame_same_name"])
+        k = rng.choice(["convert"] * 6 + ["get_orbit", "get_orbit", "mutate_again", "create", "create", "dynamic", "register", "flip", "restart", "analytic", "analytic", "reverse", "kepler_probe", "kepler_probe", "orbit_as_frame", "analytic_frame_same_name", "pickle_orbit"])
         op = {"op": k}
         if k == "convert":
             a, b = rng.sample(names + ["EME2000"], 2)
@@ -141,6 +144,8 @@ def gen_plan(rng, tier, i):
             op.update(name=rng.choice(names[1:]), date=gen_date(rng))
         elif k == "orbit_as_frame":
             op.update(name=rng.choice(["Moon", "Mars", "Sun", "MarsBarycenter", "Venus", "Mercury", "EarthBarycenter"]), date=gen_date(rng), n=rng.randrange(1000), orient=rng.choice([None, None, "QSW"]))
+        elif k == "pickle_orbit":
+            op.update(name=rng.choice(names[1:]), date=gen_date(rng), to=rng.choice(["SolarSystemBarycenter", "EME2000", "Moon", "Sun"]))
         elif k == "analytic_frame_same_name":
             op.update(name=rng.choice(["Sun", "Moon"]), date=gen_date(rng))
         elif k == "kepler_probe":
@@ -480,6 +485,33 @@ class World:
         ctx.probe("kernel_frame_served_after_analytic_namesake")
         if type(fr).__name__ != "JplFrame" or fr.orientation.name != "EME2000":
             ctx.violate("jpl-frames", {"kind": "kernel_frame_replaced_by_namesake", "name": op["name"]}, f"{where}: after solarsystem.get_frame({op['name']!r}), jpl.get_frame({op['name']!r}) returns a {type(fr).__name__} oriented {fr.orientation.name} instead of the frame created from the kernel")
+
+    def op_pickle_orbit(self, op, where):
+        """A body state sent to another worker (pickle) and converted there denotes the same point."""
+        import pickle
+
+        ctx = self.ctx
+        n = self.node
+        jpl = n.mod("beyond.env.jpl")
+        if getattr(self, "name_clash", False) or self.guarded(self.ensure_frames, where, "create_frames")[1] is not None:
+            return
+        m = model_kernel()
+        name, to = op["name"], op["to"]
+        if name not in m["index"] or m["index"][name] not in m["seg"] or to == name:
+            return
+        date = world.mk_date(n, op["date"][:2], op["date"][2])
+
+        def do():
+            o = jpl.get_orbit(name, date)
+            o2 = pickle.loads(pickle.dumps(o))
+            return np.array(o2.copy(frame=to), dtype=float)
+
+        got, exc = self.guarded(do, where, f"pickle of get_orbit({name}) then conversion to {to}")
+        if exc is not None:
+            return
+        ctx.probe("pickled_body_state_converted")
+        ctx.fault("msg_to_other_node")
+        self.check_vector(got, name, to, op["date"], where + " (after a pickle round trip)")
 
     def op_reverse(self, op, where):
         """A propagator built in the direction opposite to the file's segment (centre seen from its target): the negated segment,
